@@ -882,3 +882,53 @@ fn nb_gen_unopt_plus() {
         None => println!("NB-RESULT name=nb_gen_unopt_plus status=ok cases={} key=- detail=a+ with pest_optimizer = false vs pest: all strings<={} chars over {{a,blank}}", cases, l),
     }
 }
+
+
+// ---- grammar 8: a grammar WITHOUT any plain normal rule (only _ @ $ ! kinds): the generator decides which skip rules exist from the
+// rules it collected ------------------------------------------------------------------------------------------------------------------
+mod p8 {
+    #[derive(pest_derive::Parser)]
+    #[grammar_inline = r#"
+WHITESPACE = _{ " " }
+COMMENT = _{ "/*" ~ (!"*/" ~ ANY)* ~ "*/" }
+item = @{ ('a'..'b')+ }
+list = !{ item ~ ("," ~ item)* }
+entry = _{ list }
+cmp = ${ item ~ list }
+"#]
+    pub struct P;
+}
+mod t8 {
+    use pest_typed_derive::TypedParser;
+    #[derive(TypedParser)]
+    #[grammar_inline = r#"
+WHITESPACE = _{ " " }
+COMMENT = _{ "/*" ~ (!"*/" ~ ANY)* ~ "*/" }
+item = @{ ('a'..'b')+ }
+list = !{ item ~ ("," ~ item)* }
+entry = _{ list }
+cmp = ${ item ~ list }
+"#]
+    pub struct T;
+}
+#[test]
+fn nb_gen_no_normal_rule() {
+    let l = bound(6);
+    let mut cases = 0u64;
+    for s in strings(&["a", ",", " ", "/*", "*/"], l).iter() {
+        macro_rules! one { ($name:ident) => {{
+            cases += 1;
+            let pe = p8::P::parse(p8::Rule::$name, s).ok().map(|mut x| x.next().unwrap().as_span().end());
+            let ty = t8::pairs::$name::try_parse_partial(s.as_str()).ok().map(|x| x.0.pos());
+            let tc = t8::pairs::$name::try_check_partial(s.as_str()).ok().map(|x| x.pos());
+            if pe != ty || ty != tc { println!("NB-RESULT name=nb_gen_no_normal_rule status=fail cases={} key=grammar8,rule={},input={:?} detail=C01/C07: pest {:?} vs typed parse {:?} / check {:?}", cases, stringify!($name), s, pe, ty, tc); return; }
+        }}; }
+        one!(item); one!(list); one!(cmp);
+        cases += 1;
+        let pe = p8::P::parse(p8::Rule::entry, s).ok().map(|x| x.last().map_or(0, |p| p.as_span().end()));
+        let ty = t8::rules::entry::try_parse_partial(s.as_str()).ok().map(|x| x.0.pos());
+        // a silent entry rule yields its inner pairs in pest: compare the verdict only
+        if pe.is_some() != ty.is_some() { println!("NB-RESULT name=nb_gen_no_normal_rule status=fail cases={} key=grammar8,rule=entry,input={:?} detail=C01: verdict pest {:?} vs typed {:?}", cases, s, pe, ty); return; }
+    }
+    println!("NB-RESULT name=nb_gen_no_normal_rule status=ok cases={} key=- detail=grammar with only silent / atomic / compound-atomic / non-atomic rules: 4 rules x all strings<={} tokens over {{a,comma,blank,/*,*/}}: verdict and offset vs pest, check==parse", cases, l);
+}
